@@ -1,8 +1,59 @@
 (* Properties/C04.v — pinned statements only. *)
-From Boreal Require Import Base.Prelude Base.Res Model.Eval Spec.CondSem Proofs.EvalProofs.
+From Boreal Require Import Base.Prelude Base.Res Model.Eval Spec.CondSem Proofs.SemProofs.
 
-Theorem C04_undefined_rule_does_not_match :
-  forall en c, eval en None [] c = Undef -> eval_rule en c = Ok false.
-Proof. exact eval_rule_undef. Qed.
+(* With the string matches of the scan available, the evaluator (early exits, accumulators,
+   clamps, occurrence indexes, bound identifiers) computes exactly the declarative three-valued
+   semantics, for every well-formed condition, selected string and identifier stack. *)
+Theorem C04_eval_eq_sem :
+  forall (M : list (list smatch)) prev ext fsz mem e sel stack,
+    wf_expr ext (length M) (length prev) e = true -> sel_ok' M sel ->
+    eval (envM M prev ext fsz mem) sel stack e = to_res (sem (qM M prev ext fsz mem) sel stack e).
+Proof. exact eval_eq_sem. Qed.
 
-Print Assumptions C04_undefined_rule_does_not_match.
+(* a rule matches iff its condition is defined and true; an undefined condition does not match *)
+Theorem C04_rule_verdict :
+  forall (M : list (list smatch)) prev ext fsz mem cond,
+    wf_expr ext (length M) (length prev) cond = true ->
+    eval_rule (envM M prev ext fsz mem) cond = Ok (sem_rule (qM M prev ext fsz mem) cond).
+Proof. exact rule_verdict_sem. Qed.
+
+(* evaluation of a well-formed condition neither panics nor asks for matches it already has *)
+Theorem C04_eval_total :
+  forall (M : list (list smatch)) prev ext fsz mem e sel stack,
+    wf_expr ext (length M) (length prev) e = true -> sel_ok' M sel ->
+    eval (envM M prev ext fsz mem) sel stack e <> Panic /\ eval (envM M prev ext fsz mem) sel stack e <> Needed.
+Proof. exact eval_never_panics. Qed.
+
+(* the accumulators against counting, for every list of defined-or-undefined operand values *)
+Theorem C04_and_is_forall : forall os, and_loop false (map to_res os) = Ok (VBool (forallb holds os)).
+Proof. exact and_loop_sem. Qed.
+Theorem C04_or_is_exists : forall os, or_loop false (map to_res os) = Ok (VBool (existsb holds os)).
+Proof. exact or_loop_sem. Qed.
+Theorem C04_at_least_is_count : forall os n, 1 <= n ->
+  for_loop (FNum n) 0 (map to_res os) = Ok (VBool (n <=? count_true (map holds os))).
+Proof. exact for_loop_num_sem. Qed.
+Theorem C04_all_is_count : forall os,
+  for_loop FAll 0 (map to_res os) = Ok (VBool (count_true (map holds os) =? nlen (map holds os))).
+Proof. exact for_loop_all_sem. Qed.
+Theorem C04_none_is_count : forall os,
+  for_loop FNone 0 (map to_res os) = Ok (VBool (count_true (map holds os) =? 0)).
+Proof. exact for_loop_none_sem. Qed.
+
+(* non-vacuity: a quantified condition over two strings with an undefined operand *)
+Example C04_example :
+  let M := [[{| m_base := 0; m_off := 0; m_len := 2 |}]; []] in
+  let e := EAnd [EFor (KExpr false) (EInt 1) [0%nat; 1%nat] (EVar None);
+                 EUn UNot (EBin OEq (EReadInt U8 (EInt 1000)) (EInt 0))] in
+  wf_expr [] 2 0 e = true
+  /\ eval (envM M [] [] (Some 3) (Some [97; 98; 99])) None [] e = Ok (VBool false)
+  /\ sem (qM M [] [] (Some 3) (Some [97; 98; 99])) None [] e = Some (VBool false).
+Proof. vm_compute. repeat split. Qed.
+
+Print Assumptions C04_eval_eq_sem.
+Print Assumptions C04_rule_verdict.
+Print Assumptions C04_eval_total.
+Print Assumptions C04_and_is_forall.
+Print Assumptions C04_or_is_exists.
+Print Assumptions C04_at_least_is_count.
+Print Assumptions C04_all_is_count.
+Print Assumptions C04_none_is_count.
